@@ -224,12 +224,12 @@ class ModelsMixin:
                 for m in ms:
                     r, _ = self.call_func(m, [self.recv_for(v, c)], {}, st, node, "iter")
                     if r.elem is not None:
-                        res = join(res, r.elem.add_dep(r.dep, EMPTY))
+                        res = join(res, r.elem.add_dep(r.dep, r.mdep))
                     else:
                         res = join(res, Val(ty={"?"}, dep=r.dep))
             else:
                 if v.elem is not None:
-                    res = join(res, v.elem.add_dep(v.dep, EMPTY))
+                    res = join(res, v.elem.add_dep(v.dep, v.mdep))
         if res is not None and not (v.ty - {t for t in v.ty if t.startswith("inst:")}):
             return res
         if "range" in v.ty:
@@ -238,7 +238,7 @@ class ModelsMixin:
             res = join(res, mk_str().with_(dep=v.dep))
         e = v.iter_join()
         if e is not None:
-            res = join(res, e.add_dep(v.dep, EMPTY))
+            res = join(res, e.add_dep(v.dep, v.mdep))
         elif res is None or "?" in v.ty:
             res = join(res, Val(ty={"?"}, pts={("E", o) for o in v.pts}, dep=v.dep, mdep=v.mdep, kind=self.A.user_number().kind if "?" in v.ty else EMPTY))
         return res
